@@ -13,7 +13,14 @@ SPEC = {
     'allowed_axioms': [],
     'shard': 25,
     'check_preamble': 'Open Scope N_scope.\n',
-    'rule': 'one case = one history of store operations against the real mavl store module on a temporary LevelDB '
+    'rule': 'The histories run in CHILD processes of the harness (it re-executes itself with --extra child; a batch of '
+            'jobs per child, one event line per history header / operation about to start / reply / finished case): '
+            'a panic in a goroutine of the store module cannot be recovered and kills the process, so when a child '
+            'dies the history it was working on is run again alone in a fresh process (the rest of the batch goes to '
+            'a new child) and, if it dies again, is emitted as a case that ends with the operation in flight answered '
+            '"crashed" (OCrashed; IIdle if none was in flight), everything observed before kept; the model never '
+            'predicts OCrashed and the specification oracle rejects it for every operation. '
+            'One case = one history of store operations against the real mavl store module on a temporary LevelDB '
             '(EnableMavlPrefix on for a third; a third of the sequential histories travel as messages through the '
             'module\'s queue, the rest are direct method calls under recover). Operations: MemSet (pending update) of '
             'any committed root (forks), Commit / Rollback of pending roots in random order, direct Set, Commit / '
@@ -26,7 +33,13 @@ SPEC = {
             'the witness of finding 2; two forks of one parent x {commit, rollback}^2 x both orders x {direct, queue} (16); '
             'guarded-small (3-7 ops) / guarded-medium (8-16 ops): never an empty MemSet on a root that exists only '
             'as a pending tree; unrestricted: 7 % of the steps are such an empty MemSet (former finding 1, fixed '
-            'in chain33 5fa803c: every specification failure there is a violation); conc: 2 '
+            'in chain33 5fa803c: every specification failure there is a violation); reexec (3-9 composite steps, 2-4 keys so '
+            'that every root has height <= 2 and none of its nodes is kept by the node cache, half through the queue): '
+            'an earlier update executed again (same root after its rollback / a restart), a root that is read or named '
+            'as parent BEFORE it exists (predicted through the foreign store) and then produced and committed, an '
+            'update that changes nothing (its root is the committed parent itself) followed by a competing update of '
+            'the same parent, an update requested on top of a root that is only pending followed by the rollback of '
+            'whatever came back and the commit of the pending root, reads at all roots after half of the steps; conc: 2 '
             'committed roots and 1-2 roots predicted through the foreign store, then 2-4 phases in which <= 6 '
             'operations (MemSet, Commit, Rollback, Get; one Commit-or-Rollback per hash and phase, no Get of a tree '
             'while it may be saved) are sent concurrently by 8 worker goroutines through the queue and stamped with '
@@ -45,7 +58,13 @@ SPEC = {
         'the specification oracle (Spec.sstep) works on opaque root tokens and C01 sorted maps; it is fed with the '
         'implementation\'s replies only',
         'concurrent part: the search for a sequential order (Check.lin, in the kernel) is a TEST of linearizability at '
-        'operation granularity over the schedules the Go runtime happened to produce',
+        'operation granularity over the schedules the Go runtime happened to produce; the search gives up after '
+        '40000 candidate steps (Check.lin_budget; the largest search on the unchanged store tried 64) and then '
+        'reports a broken correspondence - a history without any order would otherwise cost the product of the '
+        'orders of its phases',
+        'process death is observed by the harness parent (exit status of the child + the last event lines); a '
+        'history is charged with it only if it dies in a fresh process or alone; a death that needs the earlier '
+        'histories of the batch is reported too (kind ...+crashed+batch) next to the finished case',
     ],
     'assumptions': [
         'ATOMICITY: C04_ops_linearizable_model assumes every store operation is served atomically. The Go store '
@@ -91,6 +110,7 @@ SPEC = {
 def extra(ctx):
     """Summarises the concurrent smoke part for the evidence file (no additional checks)."""
     conc = [c for c in ctx.cases if str(c.get('kind', '')).startswith('conc')]
+    crashed = [c for c in ctx.cases if '+crashed' in str(c.get('kind', ''))]
     nops = 0
     overlapping = 0
     for c in conc:
@@ -101,7 +121,8 @@ def extra(ctx):
                 if a.get('inv', 0) < b.get('resp', 0) and b.get('inv', 0) < a.get('resp', 0):
                     overlapping += 1
     return {'violations': [], 'known': [],
-            'coverage': {'concurrent_histories': len(conc), 'concurrent_operations': nops,
+            'coverage': {'histories_that_killed_the_store_process': len(crashed),
+                         'concurrent_histories': len(conc), 'concurrent_operations': nops,
                          'pairs_of_operations_overlapping_in_time': overlapping,
                          'concurrent_note': 'linearizability search per history in the kernel; a test over the '
                                             'schedules that occurred, not a quantification over schedules'}}
